@@ -19,13 +19,26 @@ Print Assumptions cache_accounting_exact.
 Theorem fresh_cache_consistent :
   forall e, CInv (cache_new e)
 
-(* an explicit remove is never followed by a hit *).
+(* eviction brings the usage down to the low watermark: two CLOCK passes always suffice (the
+   first clears the reference bit of everything it keeps, the second finds it all unreferenced) *).
 Proof. exact cache_new_CInv. Qed.
 Check fresh_cache_consistent :
   forall e, CInv (cache_new e)
 
-(* an explicit remove is never followed by a hit *).
+(* eviction brings the usage down to the low watermark: two CLOCK passes always suffice (the
+   first clears the reference bit of everything it keeps, the second finds it all unreferenced) *).
 Print Assumptions fresh_cache_consistent.
+
+Theorem eviction_reaches_the_low_watermark :
+  forall c, CInv c -> cmem (cevict c) <= low c
+
+(* an explicit remove is never followed by a hit *).
+Proof. exact cevict_reaches_low. Qed.
+Check eviction_reaches_the_low_watermark :
+  forall c, CInv c -> cmem (cevict c) <= low c
+
+(* an explicit remove is never followed by a hit *).
+Print Assumptions eviction_reaches_the_low_watermark.
 
 Theorem remove_is_never_followed_by_a_hit :
   forall c k, CInv c -> fst (cget (cremove c k) k) = None.
